@@ -64,6 +64,29 @@ def stored_reads(ctx, filename=None):
     return out
 
 
+def rollback_site(prog, ctx, filename, doc_origins=None):
+    """where the stored copy of `filename` is read for the loader `ctx`: (ctx, None, None) when the
+    loader does it itself, or (helper ctx, (bb, call), k) when a crate-local function called by the
+    loader does (one level) — k = index of the argument through which the loader hands it the
+    document whose origins are `doc_origins` (None if not identifiable); None if nowhere"""
+    if stored_reads(ctx, filename):
+        return ctx, None, None
+    for bb, t in ctx.body.calls():
+        callee = t.resolved or t.callee
+        if not callee or not callee.startswith("tough::") or "{closure" in callee or callee.startswith("tough::datastore::"):
+            continue
+        hctx = async_body(prog, strip_generics(callee))
+        if hctx is None or hctx is ctx or not stored_reads(hctx, filename):
+            continue
+        k = None
+        if doc_origins:
+            for i, a in enumerate(t.args):
+                if ctx.origins.of_operand(a) == doc_origins:
+                    k = i
+        return hctx, (bb, t), k
+    return None
+
+
 def stored_origin(ctx, o, filename=None):
     """is origin `o` a document parsed from datastore bytes (optionally of `filename`)?"""
     if o.kind != "call":
@@ -174,12 +197,34 @@ def run(chk, prog):
                      "originate from a parse site: %s" % sorted(map(repr, fetched)))
             continue
         S, info = skip_edges(ctx, fname)
-        if not info:
-            chk.fail("R1", f, fname, "the stored %s is never read back: no rollback reference "
-                     "(Datastore::bytes(%r) not called)" % (fname, fname), ctx.site(create_blocks[0]))
-            continue
-        n_r1 += 1
+        lctx, lcreates = ctx, create_blocks
         is_fetched = lambda o: o.kind == "call" and base(o) in fetched and o.fields == ("signed", "version")
+        if not info:
+            # the whole rollback check may live in a helper the loader calls (one level): then the helper's Ok
+            # return plays the part of `create`, its parameter the part of the fetched document, and the
+            # loader must reach `create` only through the Ok edge of that call
+            site = rollback_site(prog, ctx, fname, fetched)
+            if site is None or site[1] is None or site[2] is None:
+                chk.fail("R1", f, fname, "the stored %s is never read back: no rollback reference "
+                         "(Datastore::bytes(%r) not called)" % (fname, fname), ctx.site(create_blocks[0]))
+                continue
+            hctx, (hbb, ht), k = site
+            chk.analysed_body(hctx.body)
+            hpos = ctx.track_call(hbb).pos_edges(0)
+            ph = ctx.cfg.witness_path(create_blocks, hpos)
+            chk.require(bool(hpos) and ph is None, "R1", f, fname + ":via-" + short_fn(hctx.body.path).split("::")[-1],
+                        "Datastore::create(%r) is reachable without the rollback check in %s having succeeded"
+                        % (fname, short_fn(hctx.body.path)), ctx.site(create_blocks[0]), path=ctx.describe_path(ph))
+            ctx = hctx
+            create_blocks = hctx.ok_return_blocks()
+            S, info = skip_edges(ctx, fname)
+            is_fetched = lambda o, hctx=hctx, k=k: o.kind in ("param", "upvar") and \
+                param_index_of_origin(prog, hctx, base(o)) == k and o.fields == ("signed", "version")
+            if not info or not create_blocks:
+                chk.fail("R1", f, fname, "unrecognised-idiom: rollback helper %s" % short_fn(hctx.body.path), hctx.site(0))
+                ctx, create_blocks = lctx, lcreates
+                continue
+        n_r1 += 1
         is_stored = lambda o: stored_origin(ctx, o, fname) and o.fields == ("signed", "version")
         guards = version_guard(ctx, fname, fetched, None, None, is_stored, is_fetched)
         T = []
@@ -212,6 +257,7 @@ def run(chk, prog):
                         "when the stored %s is %s the cycle cannot complete (the new document is never persisted): a "
                         "repository that moves forward after a key or threshold change would be refused for ever"
                         % (fname, cat.replace("-", " ")), ctx.site(create_blocks[0]))
+        ctx, create_blocks = lctx, lcreates
         # R3: what is persisted is the verified, returned document; Ok is returned only after create
         for bb, t in creates:
             og = ctx.origins.of_operand(t.args[2])
